@@ -1097,6 +1097,29 @@ bool evaluate_impl(const void *context, const GraphView &graph,
   state.evaluating = true;
   auto reset = make_scope_exit([&] noexcept { state.evaluating = false; });
 
+  // A cycle that ends by exception stops the scan at the failing node, so the
+  // wake-ups of the nodes behind it were never folded into next_scheduled_time.
+  // That cache is what the executor (or the node owning a nested graph) asks
+  // for the next cycle: when the failure is captured (try_except_, map_) those
+  // wake-ups would never be delivered. Fold them on the way out (from the
+  // failing node on: a push source evaluated for a pending push may itself
+  // hold a later wake-up) and, for a nested graph, hand the result to the
+  // parent as a completed cycle does.
+  UnwindCleanupGuard fold_unvisited_schedules([&] {
+    for (std::size_t index = state.evaluation_cursor;
+         index < runtime.layout.node_count; ++index) {
+      const DateTime scheduled = graph_schedule(runtime, graph.data(), index);
+      if (scheduled > evaluation_time &&
+          scheduled < state.next_scheduled_time) {
+        state.next_scheduled_time = scheduled;
+      }
+    }
+    if constexpr (std::is_same_v<Storage, NestedGraphRuntimeStorage>) {
+      propagate_nested_parent_schedule(
+          graph_header<NestedGraphRuntimeStorage>(runtime, graph.data()));
+    }
+  });
+
   // Fires once this cycle either genuinely completes or an exception escapes
   // the node loop below — never on a pause (return false mid-cycle, suppressed
   // via `paused`). HideExceptions: a buggy observer must not mask the real
